@@ -46,6 +46,7 @@ type c03Eval struct {
 	Abnormal     string
 	FilesChecked int
 	Reloads      map[string]int // file -> number of save-and-load-again points needed
+	Undecided    []string       // not consistent in one piece, and too many states to try reload points
 	ModeOnly     []string
 }
 
@@ -135,7 +136,32 @@ func c03Evaluate(ctx *Ctx, root string, cfg wrConfig, before, after map[string]f
 		// not consistent in one piece: was the file saved and loaded again in between?
 		b, a := before[p.rel], after[p.rel]
 		solved := false
-		for rl := 1; rl <= c03MaxReloads && !solved && len(p.entries) <= 24; rl++ {
+		// the search with reload points enumerates whole-file states: estimate their number
+		// (product over the replacements of the largest number of occurrences in any line)
+		// and leave the file undecided when that is out of reach
+		est := 1.0
+		allLines := append(strings.SplitAfter(b.Data, "\n"), strings.SplitAfter(a.Data, "\n")...)
+		for _, e := range p.entries {
+			if e.Kind != 'R' {
+				continue
+			}
+			occ := 1
+			for _, l := range allLines {
+				n := strings.Count(l, e.A)
+				if e.A == "" {
+					n = len(l) + 1
+				}
+				if n > occ {
+					occ = n
+				}
+			}
+			est *= float64(occ)
+		}
+		if est > 3e5 || len(p.entries) > 40 {
+			ev.Undecided = append(ev.Undecided, p.rel)
+			continue
+		}
+		for rl := 1; rl <= c03MaxReloads && !solved; rl++ {
 			ans2, err := runOracle(ctx, "c03", []string{consRequest(rl, b.Data, logs[p.rel].Entries, a.Data)})
 			if err != nil {
 				return ev, err
@@ -463,6 +489,7 @@ func c03Whole(ctx *Ctx, res *Result, rng *Rng) {
 		res.Count("W.files_judged", j.ev.FilesChecked)
 		res.Count("W.files_changed", len(j.ev.Changed))
 		res.Count("W.mode_only_changes", len(j.ev.ModeOnly))
+		res.Count("W.files_undecided_too_many_states", len(j.ev.Undecided))
 		for rel, rl := range j.ev.Reloads {
 			res.Count(fmt.Sprintf("W.files_needing_%d_reloads", rl), 1)
 			if len(reloadExamples) < 6 {
